@@ -378,8 +378,11 @@ func c19Programs(r *core.Rng, n int) []string {
 				return []string{"-1", "-2", "0", "1", "2", "100", "-9223372036854775807", "9223372036854775807", "NULL", "'x'", "1.5", "TRUE"}[r.Intn(12)]
 			}
 			arg := []string{"", "v", b(), "v, " + b(), "v, " + b() + ", " + b(), "v, " + sb(), "v, " + sb() + ", " + sb(), sb()}[r.Intn(8)]
-			fr := []string{"", " ROWS " + b() + " PRECEDING", " ROWS BETWEEN " + b() + " PRECEDING AND " + b() + " FOLLOWING", " ROWS BETWEEN UNBOUNDED PRECEDING AND CURRENT ROW"}[r.Intn(4)]
-			out = append(out, fmt.Sprintf("SELECT id, %s(%s) OVER (PARTITION BY k ORDER BY v%s) FROM t;", fn, arg, fr))
+			// (also frames that hold no row for some or all records: both bounds on one side of the current row, reversed bounds)
+			fr := []string{"", " ROWS " + b() + " PRECEDING", " ROWS BETWEEN " + b() + " PRECEDING AND " + b() + " FOLLOWING", " ROWS BETWEEN UNBOUNDED PRECEDING AND CURRENT ROW",
+				" ROWS BETWEEN 2 PRECEDING AND 1 PRECEDING", " ROWS BETWEEN 1 FOLLOWING AND 2 FOLLOWING", " ROWS BETWEEN 1 FOLLOWING AND 1 PRECEDING", " ROWS BETWEEN " + sb() + " FOLLOWING AND " + sb() + " FOLLOWING", " ROWS BETWEEN " + sb() + " PRECEDING AND " + sb() + " PRECEDING",
+				" ROWS BETWEEN CURRENT ROW AND 1 PRECEDING", " ROWS BETWEEN UNBOUNDED FOLLOWING AND UNBOUNDED PRECEDING"}[r.Intn(11)]
+			out = append(out, fmt.Sprintf("SELECT id, %s(%s) OVER (PARTITION BY k ORDER BY v%s) FROM t;", fn, arg, fr), fmt.Sprintf("SELECT v, %s(%s) OVER (ORDER BY id%s) AS a, k FROM %s;", fn, arg, fr, []string{"t", "one", "e", "big"}[r.Intn(4)]))
 		case 7:
 			cl := []string{"LIMIT " + b(), "LIMIT " + b() + " PERCENT", "LIMIT " + b() + " WITH TIES", "OFFSET " + b(), "LIMIT " + b() + " OFFSET " + b(), "LIMIT " + b() + " PERCENT WITH TIES OFFSET " + b(), "FETCH FIRST " + b() + " ROWS ONLY"}[r.Intn(7)]
 			ob := []string{"", "ORDER BY v ", "ORDER BY v DESC NULLS LAST, k "}[r.Intn(3)]
